@@ -1121,6 +1121,7 @@ pub fn c01(tier: Tier) -> i32 {
     explore_alpha("C01", &mut ctx, &env, &crate::perm::fills_alphabet(), if tier == Tier::Quick { 5 } else { 6 }, &mut acc);
     // several securities whose trades and corporate actions interleave on the same dates
     explore_alpha("C01", &mut ctx, &env, &profiles::two_sec(), if tier == Tier::Quick { 5 } else { 6 }, &mut acc);
+    explore_alpha("C01", &mut ctx, &env, &profiles::nano(), 5, &mut acc);
     explore_list("C01", &mut ctx, &env, "compete", profiles::compete_ledgers(), &mut acc, "2-3 consecutive disposal days + an acquisition day with its own disposal, all quantity combinations, with/without a split in between");
     for k in ["legs:same-day", "legs:30-day", "legs:section-104", "shape:30-day-leg-across-split", "shape:30-day-leg-onto-day-with-own-disposal", "shape:several-disposals-claim-one-acquisition-day", "shape:30-day-leg-at-exactly-D+30", "shape:disposal-spread-over-several-rules"] {
         ctx.require(acc.get(k) > 0, &format!("no state exhibited {k}"));
@@ -1144,6 +1145,8 @@ pub fn c02(tier: Tier) -> i32 {
     explore_alpha("C02", &mut ctx, &env, &profiles::match1_same_day(&["2"]), n_full - 1, &mut acc);
     explore_alpha("C02", &mut ctx, &env, &profiles::two_sec(), n_two, &mut acc);
     explore_alpha("C02", &mut ctx, &env, &crate::perm::fills_alphabet(), n_two, &mut acc);
+    // remainders of a billionth of a share and less (nine and ten decimal places)
+    explore_alpha("C02", &mut ctx, &env, &profiles::nano(), if tier == Tier::Quick { 5 } else { 7 }, &mut acc);
     explore_list("C02", &mut ctx, &env, "compete", profiles::compete_ledgers(), &mut acc, "competing disposals (see C01)");
     for k in ["legs:same-day", "legs:30-day", "legs:section-104", "shape:30-day-leg-across-split", "shape:several-disposals-claim-one-acquisition-day", "shape:disposal-spread-over-several-rules"] {
         ctx.require(acc.get(k) > 0, &format!("no state exhibited {k}"));
@@ -1167,6 +1170,7 @@ pub fn c05(tier: Tier) -> i32 {
     explore_alpha("C05", &mut ctx, &env, &profiles::oversell(), n_over, &mut acc);
     explore_alpha("C05", &mut ctx, &env, &profiles::match1_same_day(&["2"]), n_full - 1, &mut acc);
     explore_alpha("C05", &mut ctx, &env, &profiles::oversell_two_sec(), n_over, &mut acc);
+    explore_alpha("C05", &mut ctx, &env, &profiles::nano(), if tier == Tier::Quick { 5 } else { 7 }, &mut acc);
     ctx.require(acc.get("interleaved-line-order-also-run") > 0, "no ledger was run in an interleaved order");
     crate::cli::c05_frontends(&mut ctx, &mut acc);
     ctx.require(acc.get("frontend:cli-runs") > 0 && acc.get("frontend:mcp-requests") > 0, "front-ends not exercised");
@@ -1231,7 +1235,9 @@ pub fn c10(tier: Tier) -> i32 {
         Tier::Thorough => (5, 5),
     };
     explore_alpha("C10", &mut ctx, &env, &profiles::events(&["2", "2.5"]), n_ev, &mut acc);
-    explore_alpha("C10", &mut ctx, &env, &profiles::match1(&["2", "4"], true), n_m, &mut acc);
+    // one event deeper on the reduced alphabet: two disposals (or a disposal and the acquisition day's own sale)
+    // competing across a split for one later acquisition need five events
+    explore_alpha("C10", &mut ctx, &env, &profiles::match1(&["2", "4"], true), n_m + 1, &mut acc);
     explore_alpha("C10", &mut ctx, &env, &profiles::match1_same_day(&["2"]), n_m, &mut acc);
     // a split of one security inside the 30-day window of another
     explore_alpha("C10", &mut ctx, &env, &profiles::two_sec(), n_m, &mut acc);
